@@ -93,6 +93,64 @@ func SwapUint64(p *uint64, v uint64) uint64 {
 	return o
 }
 
+// And*/Or* (sync/atomic since Go 1.23): read-modify-write, return the old value.
+func AndInt32(p *int32, m int32) int32 {
+	pt("atomic.And", unsafe.Pointer(p))
+	o := *p
+	*p = o & m
+	vsched.Obs(uint64(o))
+	return o
+}
+func AndUint32(p *uint32, m uint32) uint32 {
+	pt("atomic.And", unsafe.Pointer(p))
+	o := *p
+	*p = o & m
+	vsched.Obs(uint64(o))
+	return o
+}
+func AndInt64(p *int64, m int64) int64 {
+	pt("atomic.And", unsafe.Pointer(p))
+	o := *p
+	*p = o & m
+	vsched.Obs(uint64(o))
+	return o
+}
+func AndUint64(p *uint64, m uint64) uint64 {
+	pt("atomic.And", unsafe.Pointer(p))
+	o := *p
+	*p = o & m
+	vsched.Obs(o)
+	return o
+}
+func OrInt32(p *int32, m int32) int32 {
+	pt("atomic.Or", unsafe.Pointer(p))
+	o := *p
+	*p = o | m
+	vsched.Obs(uint64(o))
+	return o
+}
+func OrUint32(p *uint32, m uint32) uint32 {
+	pt("atomic.Or", unsafe.Pointer(p))
+	o := *p
+	*p = o | m
+	vsched.Obs(uint64(o))
+	return o
+}
+func OrInt64(p *int64, m int64) int64 {
+	pt("atomic.Or", unsafe.Pointer(p))
+	o := *p
+	*p = o | m
+	vsched.Obs(uint64(o))
+	return o
+}
+func OrUint64(p *uint64, m uint64) uint64 {
+	pt("atomic.Or", unsafe.Pointer(p))
+	o := *p
+	*p = o | m
+	vsched.Obs(o)
+	return o
+}
+
 func CompareAndSwapInt32(p *int32, o, n int32) bool {
 	pt("atomic.CAS", unsafe.Pointer(p))
 	if *p == o {
